@@ -276,9 +276,35 @@ func lockDiscipline(c *core.Ctx) {
 		c.Unresolved("duplexHTTPCall.err", "field not found")
 		return
 	}
+	// the error and its mutex kept together in a small struct of their own (`err stickyError{mu, err}`): the
+	// datum is that struct's error field, the lock its mutex field
+	var lockField *types.Var
+	if nt := astx.NamedOf(errField.Type()); nt != nil && nt.Obj().Pkg() == p.Connect.Types {
+		if inner, isStruct := nt.Underlying().(*types.Struct); isStruct {
+			var data, lock *types.Var
+			for i := 0; i < inner.NumFields(); i++ {
+				f := inner.Field(i)
+				if astx.TypeIs(f.Type(), "sync", "Mutex") || astx.TypeIs(f.Type(), "sync", "RWMutex") {
+					lock = f
+				}
+				if types.Identical(f.Type(), types.Universe.Lookup("error").Type()) {
+					data = f
+				}
+			}
+			if data != nil && lock != nil {
+				errField, lockField = data, lock
+			}
+		}
+	}
 	isLockOp := func(call *ast.CallExpr, name string) bool {
 		sel, ok := call.Fun.(*ast.SelectorExpr)
-		return ok && sel.Sel.Name == name && astx.IsFieldNamed(info, sel.X, "errMu")
+		if !ok || sel.Sel.Name != name {
+			return false
+		}
+		if lockField != nil {
+			return astx.FieldOf(info, sel.X) == lockField
+		}
+		return astx.IsFieldNamed(info, sel.X, "errMu")
 	}
 	accesses := 0
 	for _, fd := range p.AllFuncDecls(p.Connect) {
